@@ -24,10 +24,13 @@ static const char *cbname[] = { "no-callback", "strict-callback", "permissive-ca
 /* X_DEPTH1/2/3: the verifier limits the path length with validateCertsOpts.max_verify_depth; the good chain is leaf + one
  * intermediate under the root, i.e. a path of three certificates: limits 1 and 2 must refuse it, limit 3 must accept it */
 /* X_NOANCHOR_ROOTSENT: the verifier has NO CA certificate loaded at all and the peer's chain ends with its (self-signed) root */
-enum { X_CHAIN = 0, X_WRONGKEY, X_NOANCHOR, X_WRONGNAME, X_DEPTH1, X_DEPTH2, X_DEPTH3, X_NOANCHOR_ROOTSENT, X_N };
+enum { X_CHAIN = 0, X_WRONGKEY, X_NOANCHOR, X_WRONGNAME, X_DEPTH1, X_DEPTH2, X_DEPTH3, X_NOANCHOR_ROOTSENT, X_EVILCA, X_N };
+/* X_EVILCA: the verifier trusts R; the peer presents [leaf <- "Evil CA"], a self-made, self-signed CA certificate without
+ * keyUsage whose notBefore lies in 1995 (the validator's "issued before keyUsage was required" test fails for it with an
+ * error return instead of a verdict) - and holds the leaf's private key */
 #define IS_NOANCHOR(x) ((x) == X_NOANCHOR || (x) == X_NOANCHOR_ROOTSENT)
 static int g_send_root;
-static const char *xname[] = { "chain", "wrong-private-key", "no-trust-anchor", "wrong-expected-name", "max-verify-depth-1", "max-verify-depth-2", "max-verify-depth-3", "no-ca-loaded-and-peer-sends-its-root" };
+static const char *xname[] = { "chain", "wrong-private-key", "no-trust-anchor", "wrong-expected-name", "max-verify-depth-1", "max-verify-depth-2", "max-verify-depth-3", "no-ca-loaded-and-peer-sends-its-root", "self-made-ca-dated-1995-without-keyusage" };
 
 typedef struct { int ver, kx, slice; uint16_t suite; const char *name; } m_cfg_t;
 static const m_cfg_t mcfgs[] = {
@@ -93,6 +96,47 @@ static int att_leaf_id(int slice)
     x = build_cert(&c, &der, &derlen);
     att_leaf[slice] = add_u(slice, LV_LEAF, 1, K_GOOD, x, der, derlen);
     return att_leaf[slice];
+}
+
+static void swap_bin(psX509Cert_t *c, int id);
+static int load_identity(sslKeys_t *keys, int slice, int kleaf, int kint, int wrongkey);
+static int load_identity_evil(sslKeys_t *keys, int slice)
+{
+    static int eleaf[8], eca[8], made[8];
+    int rc;
+    if (!made[slice])
+    {
+        cspec_t c;
+        X509 *x;
+        unsigned char *der;
+        int derlen;
+        memset(&c, 0, sizeof(c));
+        c.subject_cn = "Evil CA"; c.issuer_cn = "Evil CA";
+        c.subject_key = g_key[slice][KS_ATT]; c.issuer_key = g_key[slice][KS_ATT];
+        c.is_ca = 1; c.pathlen = -1; c.kind = K_SELFSIGNED; c.old_no_ku = 1;
+        x = build_cert(&c, &der, &derlen);
+        eca[slice] = add_u(slice, 1, 0, K_SELFSIGNED, x, der, derlen);
+        memset(&c, 0, sizeof(c));
+        c.subject_cn = level_cn(LV_LEAF); c.issuer_cn = "Evil CA";
+        c.subject_key = g_key[slice][KS_LEAF]; c.issuer_key = g_key[slice][KS_ATT];
+        c.pathlen = -1; c.kind = K_GOOD;
+        x = build_cert(&c, &der, &derlen);
+        eleaf[slice] = add_u(slice, LV_LEAF, 1, K_GOOD, x, der, derlen);
+        made[slice] = 1;
+    }
+    /* the key loader validates the chain it is given: load the honest chain, then swap the bytes that are SENT */
+    rc = load_identity(keys, slice, K_GOOD, K_GOOD, 0);
+    if (rc >= 0)
+    {
+        psX509Cert_t *c = keys->identity ? keys->identity->cert : NULL;
+        if (!c || !c->next || !c->unparsedBin || !c->next->unparsedBin)
+        {
+            return -102;
+        }
+        swap_bin(c, eleaf[slice]);
+        swap_bin(c->next, eca[slice]);
+    }
+    return rc;
 }
 
 static void swap_bin(psX509Cert_t *c, int id)
@@ -192,7 +236,7 @@ static void run_handshake(const c_case_t *c, c_out_t *o)
     if (authed == 1)
     {
         g_send_root = c->x == X_NOANCHOR_ROOTSENT;
-        rc = load_identity(sk, M->slice, c->kleaf, c->kint, c->x == X_WRONGKEY);
+        rc = c->x == X_EVILCA ? load_identity_evil(sk, M->slice) : load_identity(sk, M->slice, c->kleaf, c->kint, c->x == X_WRONGKEY);
         g_send_root = 0;
     }
     else
@@ -201,7 +245,7 @@ static void run_handshake(const c_case_t *c, c_out_t *o)
         if (rc >= 0)
         {
             g_send_root = c->x == X_NOANCHOR_ROOTSENT;
-            rc = load_identity(ck, M->slice, c->kleaf, c->kint, c->x == X_WRONGKEY);
+            rc = c->x == X_EVILCA ? load_identity_evil(ck, M->slice) : load_identity(ck, M->slice, c->kleaf, c->kint, c->x == X_WRONGKEY);
             g_send_root = 0;
         }
     }
@@ -314,7 +358,7 @@ static void run_case(void *ctx, mx_result_t *r)
     }
     ref_lax(chain, 2, anch, IS_NOANCHOR(c->x) ? 0 : 1, &lax);
     pop_bad = c->x == X_WRONGKEY;
-    must_reject = !lax.ok || c->x == X_WRONGNAME || IS_NOANCHOR(c->x) || c->x == X_DEPTH1 || c->x == X_DEPTH2;
+    must_reject = !lax.ok || c->x == X_WRONGNAME || IS_NOANCHOR(c->x) || c->x == X_EVILCA || c->x == X_DEPTH1 || c->x == X_DEPTH2;
     {
         /* is being outside the validity period the ONLY thing wrong with this credential?  (the same chain with the
            out-of-date certificates replaced by their in-date twins is valid, the name is right, an anchor is loaded) */
@@ -691,6 +735,7 @@ int main(int argc, char **argv)
                     }
                 }
                 c.kleaf = K_GOOD; c.kint = K_GOOD;
+                c.x = X_EVILCA; add_case(c);
                 c.x = X_DEPTH1; add_case(c);
                 c.x = X_DEPTH2; add_case(c);
                 c.x = X_DEPTH3; add_case(c);
